@@ -26,12 +26,12 @@ Definition relevant (me : method) (rescue : bool) (a b : pstate) : Prop :=
   (m_razor me = true -> ps_counts a = ps_counts b) /\
   (rescue = true -> ps_obsolete a = ps_obsolete b).
 
-Lemma one_pass_reads_only_relevant me o a b s l rescue ka p1 p2 :
+Lemma one_pass_reads_only_relevant me o a b s l rescue ka pc p1 p2 :
   relevant me rescue a b ->
-  snd (one_pass me o a s l rescue ka p1 p2) = snd (one_pass me o b s l rescue ka p1 p2) /\
-  ps_seen (fst (one_pass me o a s l rescue ka p1 p2)) = ps_seen (fst (one_pass me o b s l rescue ka p1 p2)) /\
-  ps_counts (fst (one_pass me o a s l rescue ka p1 p2)) = ps_counts a /\
-  ps_counts (fst (one_pass me o b s l rescue ka p1 p2)) = ps_counts b.
+  snd (one_pass me o a s l rescue ka pc p1 p2) = snd (one_pass me o b s l rescue ka pc p1 p2) /\
+  ps_seen (fst (one_pass me o a s l rescue ka pc p1 p2)) = ps_seen (fst (one_pass me o b s l rescue ka pc p1 p2)) /\
+  ps_counts (fst (one_pass me o a s l rescue ka pc p1 p2)) = ps_counts a /\
+  ps_counts (fst (one_pass me o b s l rescue ka pc p1 p2)) = ps_counts b.
 Proof.
   intros [Hseen [Hcounts Hobs]]. unfold one_pass.
   assert (Hc : collect {| sc_razor := m_razor me; sc_shared := m_shared me; sc_counts := ps_counts a |} (o_md5 o) s rescue l =
@@ -57,8 +57,8 @@ Proof.
 Qed.
 
 (* after a pass the seen set is empty, unless evidence collection raised before the competition started *)
-Lemma one_pass_seen me o a s l rescue ka p1 p2 :
-  ps_seen a = [] -> ps_seen (fst (one_pass me o a s l rescue ka p1 p2)) = [].
+Lemma one_pass_seen me o a s l rescue ka pc p1 p2 :
+  ps_seen a = [] -> ps_seen (fst (one_pass me o a s l rescue ka pc p1 p2)) = [].
 Proof.
   intros H. unfold one_pass.
   destruct (collect _ (o_md5 o) s rescue l) as [[infos peps]|e]; [|exact H].
@@ -72,9 +72,9 @@ Proof.
 Qed.
 
 (* ---- C07: the result of a call does not depend on what earlier calls left in the strategy objects ---- *)
-Lemma run_history_independent me o a b l ka thr pis :
+Lemma run_history_independent me o a b l ka thr pc pis :
   ps_seen a = ps_seen b ->
-  snd (run me o a l ka thr pis) = snd (run me o b l ka thr pis).
+  snd (run me o a l ka thr pc pis) = snd (run me o b l ka thr pc pis).
 Proof.
   intros Hseen. unfold run. destruct (group_proteins (m_grouping me) l) as [s0|e]; [|reflexivity].
   set (a0 := {| ps_seen := ps_seen a; ps_counts := if m_razor me then Some l else ps_counts a;
@@ -83,9 +83,9 @@ Proof.
                 ps_pep_cutoff := ps_pep_cutoff b; ps_rescue_cutoff := ps_rescue_cutoff b; ps_obsolete := ps_obsolete b |}).
   assert (Hrel0 : relevant me false a0 b0).
   { split; [exact Hseen|]. split; [intros Hr; simpl; rewrite Hr; reflexivity | discriminate]. }
-  destruct (one_pass_reads_only_relevant me o a0 b0 s0 l false ka (nth 0 pis []) (nth 1 pis []) Hrel0) as [Hs [Hse [Hca Hcb]]].
-  destruct (one_pass me o a0 s0 l false ka (nth 0 pis []) (nth 1 pis [])) as [a1 ra] eqn:Ea.
-  destruct (one_pass me o b0 s0 l false ka (nth 0 pis []) (nth 1 pis [])) as [b1 rb] eqn:Eb.
+  destruct (one_pass_reads_only_relevant me o a0 b0 s0 l false ka pc (nth 0 pis []) (nth 1 pis []) Hrel0) as [Hs [Hse [Hca Hcb]]].
+  destruct (one_pass me o a0 s0 l false ka pc (nth 0 pis []) (nth 1 pis [])) as [a1 ra] eqn:Ea.
+  destruct (one_pass me o b0 s0 l false ka pc (nth 0 pis []) (nth 1 pis [])) as [b1 rb] eqn:Eb.
   simpl in Hs, Hse, Hca, Hcb. subst rb.
   destruct ra as [[infos1 rows1]|e]; [|reflexivity].
   destruct (negb (is_rescued (m_grouping me))); [reflexivity|].
@@ -98,34 +98,34 @@ Proof.
                 ps_rescue_cutoff := Some rc; ps_obsolete := Some (og, map (fun i => nth i infos1 []) oidx) |}).
   assert (Hrel2 : relevant me true a2 b2).
   { split; [exact Hse|]. split; [|reflexivity]. intros Hr. simpl. rewrite Hca, Hcb. simpl. rewrite Hr. reflexivity. }
-  destruct (one_pass_reads_only_relevant me o a2 b2 s2 l true ka (nth 2 pis []) (nth 3 pis []) Hrel2) as [Hs2 _].
-  destruct (one_pass me o a2 s2 l true ka (nth 2 pis []) (nth 3 pis [])) as [a3 ra3].
-  destruct (one_pass me o b2 s2 l true ka (nth 2 pis []) (nth 3 pis [])) as [b3 rb3].
+  destruct (one_pass_reads_only_relevant me o a2 b2 s2 l true ka pc (nth 2 pis []) (nth 3 pis []) Hrel2) as [Hs2 _].
+  destruct (one_pass me o a2 s2 l true ka pc (nth 2 pis []) (nth 3 pis [])) as [a3 ra3].
+  destruct (one_pass me o b2 s2 l true ka pc (nth 2 pis []) (nth 3 pis [])) as [b3 rb3].
   simpl in Hs2. subst rb3. destruct ra3 as [[? ?]|?]; reflexivity.
 Qed.
 
 (* every call leaves the seen set empty again *)
-Lemma run_seen_reset me o a l ka thr pis : ps_seen a = [] -> ps_seen (fst (run me o a l ka thr pis)) = [].
+Lemma run_seen_reset me o a l ka thr pc pis : ps_seen a = [] -> ps_seen (fst (run me o a l ka thr pc pis)) = [].
 Proof.
   intros H. unfold run. destruct (group_proteins (m_grouping me) l) as [s0|e]; [|exact H].
-  match goal with |- context [one_pass me o ?st s0 l false ka ?p1 ?p2] =>
-    pose proof (one_pass_seen me o st s0 l false ka p1 p2 H) as H1;
-    destruct (one_pass me o st s0 l false ka p1 p2) as [a1 ra] end.
+  match goal with |- context [one_pass me o ?st s0 l false ka pc ?p1 ?p2] =>
+    pose proof (one_pass_seen me o st s0 l false ka pc p1 p2 H) as H1;
+    destruct (one_pass me o st s0 l false ka pc p1 p2) as [a1 ra] end.
   simpl in H1. destruct ra as [[infos1 rows1]|e]; [|exact H1].
   destruct (negb (is_rescued (m_grouping me))); [exact H1|].
   destruct (negb (can_rescue (m_score me))); [exact H1|].
   destruct (rescue_score_cutoff _ _ thr) as [rc|e]; [|exact H1].
   destruct (merge_with_rescued _ _ (groups s0)) as [[[s2 og] oidx]|e]; [|exact H1].
-  match goal with |- context [one_pass me o ?st s2 l true ka ?p1 ?p2] =>
-    pose proof (one_pass_seen me o st s2 l true ka p1 p2 H1) as H2;
-    destruct (one_pass me o st s2 l true ka p1 p2) as [a3 ra3] end.
+  match goal with |- context [one_pass me o ?st s2 l true ka pc ?p1 ?p2] =>
+    pose proof (one_pass_seen me o st s2 l true ka pc p1 p2 H1) as H2;
+    destruct (one_pass me o st s2 l true ka pc p1 p2) as [a3 ra3] end.
   simpl in H2. destruct ra3 as [[? ?]|?]; exact H2.
 Qed.
 
 (* a call after ANY sequence of earlier calls on the same configuration object gives what a fresh one gives *)
-Record call := { c_l : pil; c_ka : bool; c_thr : Q; c_pis : list (list nat); c_o : oracles }.
+Record call := { c_l : pil; c_ka : bool; c_thr : Q; c_pc : Q; c_pis : list (list nat); c_o : oracles }.
 Definition after_history (me : method) (h : list call) : pstate :=
-  fold_left (fun st c => fst (run me (c_o c) st (c_l c) (c_ka c) (c_thr c) (c_pis c))) h fresh.
+  fold_left (fun st c => fst (run me (c_o c) st (c_l c) (c_ka c) (c_thr c) (c_pc c) (c_pis c))) h fresh.
 
 Lemma after_history_seen me h : ps_seen (after_history me h) = [].
 Proof.
@@ -133,18 +133,18 @@ Proof.
   induction h as [|c h IH]; intros st H; simpl; [exact H|]. apply IH. apply run_seen_reset. exact H.
 Qed.
 
-Theorem call_after_any_history me h o l ka thr pis :
-  snd (run me o (after_history me h) l ka thr pis) = snd (run me o fresh l ka thr pis).
+Theorem call_after_any_history me h o l ka thr pc pis :
+  snd (run me o (after_history me h) l ka thr pc pis) = snd (run me o fresh l ka thr pc pis).
 Proof. apply run_history_independent. rewrite after_history_seen. reflexivity. Qed.
 
 (* ---- C18: unsupported combinations are refused with the tool's own error ---- *)
-Lemma rescue_needs_pep_score me o st l ka thr pis rows1 infos1 st1 s0 :
+Lemma rescue_needs_pep_score me o st l ka thr pc pis rows1 infos1 st1 s0 :
   group_proteins (m_grouping me) l = Ok s0 ->
   is_rescued (m_grouping me) = true -> can_rescue (m_score me) = false ->
   one_pass me o {| ps_seen := ps_seen st; ps_counts := if m_razor me then Some l else ps_counts st;
                    ps_pep_cutoff := ps_pep_cutoff st; ps_rescue_cutoff := ps_rescue_cutoff st;
-                   ps_obsolete := ps_obsolete st |} s0 l false ka (nth 0 pis []) (nth 1 pis []) = (st1, Ok (infos1, rows1)) ->
-  snd (run me o st l ka thr pis) = Raise NotImplemented.
+                   ps_obsolete := ps_obsolete st |} s0 l false ka pc (nth 0 pis []) (nth 1 pis []) = (st1, Ok (infos1, rows1)) ->
+  snd (run me o st l ka thr pc pis) = Raise NotImplemented.
 Proof.
   intros Hg Hr Hc H1. unfold run. rewrite Hg, H1, Hr, Hc. reflexivity.
 Qed.
@@ -157,8 +157,8 @@ Definition rows_of_ranking (me : method) (ka : bool) (rows : list row) : Prop :=
     calculate_protein_fdrs (map (fun e => (e_group e, e_score e)) ranked) = Ok qs /\
     from_protein_groups (map e_group ranked) (map e_infos ranked) (map e_score ranked) qs cut ka = Ok rows.
 
-Lemma one_pass_rows me o st s l rescue ka p1 p2 st' infos rows :
-  one_pass me o st s l rescue ka p1 p2 = (st', Ok (infos, rows)) -> rows_of_ranking me ka rows.
+Lemma one_pass_rows me o st s l rescue ka pc p1 p2 st' infos rows :
+  one_pass me o st s l rescue ka pc p1 p2 = (st', Ok (infos, rows)) -> rows_of_ranking me ka rows.
 Proof.
   unfold one_pass. destruct (collect _ (o_md5 o) s rescue l) as [[infos0 peps]|e]; [|discriminate].
   destruct (is_mult (m_score me) && no_evidence infos0); [discriminate|].
@@ -171,20 +171,20 @@ Proof.
   intros H. inversion H; subst. repeat eexists; eassumption.
 Qed.
 
-Theorem run_rows me o st l ka thr pis rows :
-  snd (run me o st l ka thr pis) = Ok rows -> rows_of_ranking me ka rows.
+Theorem run_rows me o st l ka thr pc pis rows :
+  snd (run me o st l ka thr pc pis) = Ok rows -> rows_of_ranking me ka rows.
 Proof.
   unfold run. destruct (group_proteins (m_grouping me) l) as [s0|e]; [|discriminate].
-  match goal with |- context [one_pass me o ?st0 s0 l false ka ?p1 ?p2] =>
-    destruct (one_pass me o st0 s0 l false ka p1 p2) as [a1 ra] eqn:E1 end.
+  match goal with |- context [one_pass me o ?st0 s0 l false ka pc ?p1 ?p2] =>
+    destruct (one_pass me o st0 s0 l false ka pc p1 p2) as [a1 ra] eqn:E1 end.
   destruct ra as [[infos1 rows1]|e]; [|discriminate].
   destruct (negb (is_rescued (m_grouping me))).
   - simpl. intros H. inversion H; subst. eapply one_pass_rows. exact E1.
   - destruct (negb (can_rescue (m_score me))); [discriminate|].
     destruct (rescue_score_cutoff _ _ thr) as [rc|e]; [|discriminate].
     destruct (merge_with_rescued _ _ (groups s0)) as [[[s2 og] oidx]|e]; [|discriminate].
-    match goal with |- context [one_pass me o ?st2 s2 l true ka ?p1 ?p2] =>
-      destruct (one_pass me o st2 s2 l true ka p1 p2) as [a3 ra3] eqn:E3 end.
+    match goal with |- context [one_pass me o ?st2 s2 l true ka pc ?p1 ?p2] =>
+      destruct (one_pass me o st2 s2 l true ka pc p1 p2) as [a3 ra3] eqn:E3 end.
     destruct ra3 as [[infos3 rows3]|e]; [|discriminate].
     simpl. intros H. inversion H; subst. eapply one_pass_rows. exact E3.
 Qed.
